@@ -562,6 +562,7 @@ class nat_norm_method(Method):
 
     def apply(self, state, id, data, prevs):
         assert len(prevs) == 0, "nat_norm_method"
+        assert nat_norm_macro().can_eval(state.get_proof_item(id).th.prop), "nat_norm: not applicable"
         state.apply_tactic(id, MacroTactic('nat_norm'))
 
 
@@ -620,7 +621,7 @@ class nat_const_ineq_macro(Macro):
             return False
 
         m, n = goal.arg.args
-        return m.is_number() and n.is_number() and m.dest_number() != n.dest_number()
+        return m.get_type() == NatType and m.is_number() and n.is_number() and m.dest_number() != n.dest_number()
 
     def eval(self, goal, pts):
         assert len(pts) == 0 and self.can_eval(goal), "nat_const_ineq_macro"
@@ -664,6 +665,7 @@ class nat_const_ineq_method(Method):
 
     def apply(self, state, id, data, prevs):
         assert len(prevs) == 0, "nat_const_ineq_method"
+        assert nat_const_ineq_macro().can_eval(state.get_proof_item(id).th.prop), "nat_const_ineq: not applicable"
         state.apply_tactic(id, MacroTactic('nat_const_ineq'))
 
 
